@@ -61,6 +61,8 @@ pub struct Stats {
     pub violations: u64,
     pub known_findings: Vec<String>,
     pub run_us: u64,
+    pub sim_ns: u128,
+    pub runs_with_sim_time: u64,
 }
 
 impl Stats {
@@ -92,6 +94,8 @@ impl Stats {
             violations: 0,
             known_findings: Vec::new(),
             run_us: 0,
+            sim_ns: 0,
+            runs_with_sim_time: 0,
         }
     }
 
@@ -104,6 +108,10 @@ impl Stats {
             self.runs += 1;
             self.run_us += rec.run.wall_us;
             let t = &rec.run.trace;
+            self.sim_ns += t.sim_ns as u128;
+            if t.sim_ns > 0 {
+                self.runs_with_sim_time += 1;
+            }
             self.steps += t.steps;
             self.max_steps = self.max_steps.max(t.steps);
             self.ctx += t.context_switches();
@@ -175,6 +183,8 @@ impl Stats {
         self.real_choices += o.real_choices;
         self.nontrivial_runs += o.nontrivial_runs;
         self.run_us += o.run_us;
+        self.sim_ns += o.sim_ns;
+        self.runs_with_sim_time += o.runs_with_sim_time;
         self.capped |= o.capped;
         for (k, v) in o.strategies {
             *self.strategies.entry(k).or_insert(0) += v;
@@ -281,7 +291,11 @@ pub fn evidence_json(s: &Stats) -> Value {
             "probes_unreached": unreached,
             "families": s.families,
             "exit_statuses": s.statuses.iter().map(|(k, v)| (k.to_string(), *v)).collect::<BTreeMap<String, u64>>(),
-            "simulated_time": "n/a — the CLI has no clock, timer or timeout; progress is measured in scheduler steps (bounded-liveness limit 200000 per run)",
+            "simulated_time": format!(
+                "{:.1} simulated seconds over {} run(s) that waited on the simulated clock (injected producer stalls, sleeps, timed waits); the CLI itself has no timer or timeout, so every other run takes zero simulated time and progress is measured in scheduler steps (bounded-liveness limit 200000 per run)",
+                s.sim_ns as f64 / 1e9,
+                s.runs_with_sim_time
+            ),
             "mean_run_wall_us": if s.runs > 0 { s.run_us / s.runs } else { 0 },
             "components": components(),
             "known_findings_seen": s.known_findings,
